@@ -5,6 +5,7 @@ use crate::json::J;
 pub mod bitmap;
 pub mod mem;
 pub mod tear;
+pub mod stream;
 
 pub struct RunInfo {
     /// non-trivial by the scenario's stated rule
@@ -47,6 +48,7 @@ pub fn all_scenarios() -> Vec<&'static dyn Scenario> {
     v.push(&bitmap::MODEL);
     v.push(&mem::MEM);
     v.push(&tear::TEAR);
+    v.push(&stream::STREAM);
     v
 }
 
@@ -100,6 +102,15 @@ pub fn checks() -> Vec<Check> {
         assumptions: COMMON_ASSUMPTIONS.to_vec(),
         real: vec!["vm_memory copy_slice_impl, VolatileSlice/VolatileRef/VolatileArrayRef, Bytes at slice/region/guest-memory level, in-memory stream adapters, atomic load/store (compiled from /repo working tree)"],
         stub: vec!["thread scheduling (coroutines)", "the second party: a simulated vCPU doing one raw aligned access", "memcpy of the > 8-byte branch replaced by a byte-wise copy with a scheduling point between bytes (models a tearing memcpy)"],
+        needs_seam_events: true,
+    });
+    v.push(Check {
+        prop: "C14",
+        parts: vec![Part { scen: &stream::STREAM, xen: false, quick: 200_000, thorough: 8_000_000 }],
+        rule: "runs are 1-3 stream transfers (read_volatile_from, read_exact_volatile_from, write_volatile_to, write_all_volatile_to, the default exact loops) on a slice, a region or guest memory of 2-3 regions (touching or with holes), driven against a scripted reader/writer whose per-call behaviour (full, short by k, zero, interrupted xN, hard error of several kinds) comes from the tape; distinct = distinct event-log hash; non-trivial = the script of at least one transfer contained a fault",
+        assumptions: COMMON_ASSUMPTIONS.to_vec(),
+        real: vec!["vm_memory::io default loops and retry_eintr!, VolatileSlice / GuestRegionMmap / GuestMemory stream methods, try_access (compiled from /repo working tree)", "kernel mmap for regions"],
+        stub: vec!["the stream endpoint: a scripted ReadVolatile/WriteVolatile implementation whose outcomes the tape decides"],
         needs_seam_events: true,
     });
     v
